@@ -42,9 +42,10 @@ struct FmModel {
 };
 
 static inline void fm_geometry(std::vector<Vector3>& verts, std::vector<Triangle>& tris, std::vector<Vector2>& uvs, std::vector<Vector3>& norms, bool sym) {
-	verts = {Vector3(0, 0, 0), Vector3(1, 0, 0), Vector3(0, 1, 0), Vector3(1, 1, 0.5f)};
+	// values that are NOT exactly representable as half floats (so that precision loss in memory is visible)
+	verts = {Vector3(0.1f, 0, 0), Vector3(1.1f, 0.3f, 0), Vector3(0, 1.7f, 0.01f), Vector3(1.003f, 1, 0.5f)};
 	tris = {Triangle(0, 1, 2), Triangle(1, 3, 2)};
-	uvs = {Vector2(0, 0), Vector2(1, 0), Vector2(0, 1), Vector2(1, 1)};
+	uvs = {Vector2(0.1f, 0), Vector2(1, 0.3f), Vector2(0, 0.9f), Vector2(0.7f, 1)};
 	norms = {Vector3(0, 0, 1), Vector3(0, 0, 1), Vector3(0, 0, 1), Vector3(0, 0, 1)};
 	if (sym) {
 		for (auto& v : verts) {
